@@ -103,7 +103,7 @@ let rec rd_term () = match next () with
   | "RGB" -> let g0 = rd_nat () in let r = rd_n () in let g1 = rd_nat () in let g2 = rd_nat () in let g = rd_n () in
     let g3 = rd_nat () in let g4 = rd_nat () in let b = rd_n () in let g5 = rd_nat () in TmRgb (g0, r, g1, g2, g, g3, g4, b, g5)
   | "F" -> let name = rd_str () in let g0 = rd_nat () in let first = rd_term () in
-    let more = rd_list (fun () -> let c = rd_bool () in let ga = rd_nat () in let gb = rd_nat () in let t = rd_term () in (((c, ga), gb), t)) in
+    let more = rd_list (fun () -> let c = rd_nat () in let ga = rd_nat () in let gb = rd_nat () in let t = rd_term () in (((c, ga), gb), t)) in
     let g1 = rd_nat () in TmFunc (name, g0, first, more, g1)
   | "CALC" -> let gc = rd_nat () in let g0 = rd_nat () in let first = rd_cterm () in
     let more = rd_list (fun () -> let o = rd_cop () in let ga = rd_nat () in let gb = rd_nat () in let t = rd_cterm () in (((o, ga), gb), t)) in
